@@ -2926,6 +2926,9 @@ def rule_join_meet(run: Run, prog: Program, part: str = "span") -> int:
                 swapped = call([args[1], args[0]] + args[2:])
                 if not prop_to(swapped, res):
                     problems.append("exchanging two arguments changes the result by more than a scalar")
+        except RaisedIn as ex:
+            span_run.add("E19.join", fn.short, label, VIOLATION, f"raises {ex.name} for arguments in general position", fn.loc)
+            continue
         except (Unknown, NotPolynomial, RecursionError) as ex:
             span_run.add("E19.join", fn.short, label, UNDECIDED, f"not read: {str(ex)[:110]}", fn.loc)
             continue
@@ -2933,6 +2936,42 @@ def rule_join_meet(run: Run, prog: Program, part: str = "span") -> int:
             span_run.add("E19.join", fn.short, label, VIOLATION, "; ".join(dict.fromkeys(problems)), fn.loc)
         else:
             span_run.add("E19.join", fn.short, label, PROVEN, "incident with every argument, not identically zero, independent of the order of the arguments up to a scalar", fn.loc)
+    # two points / two planes of 3-space: the result is a line, a 2-tensor whose contraction with either argument vanishes
+    for label, point in (("join of two points of 3-space", True), ("meet of two planes of 3-space", False)):
+        n_ob += 1
+        try:
+            u_, v_ = obj("p" if point else "e", 4, point), obj("q" if point else "f", 4, point)
+            res = call([u_, v_])
+            problems = []
+            if res.array.shape != (4, 4) or res.tensor_shape not in ((0, 2), (2, 0)):
+                problems.append(f"the result has index types {res.tensor_shape} and shape {res.array.shape}")
+            else:
+                d_ = res.array.data
+                if point != (res.tensor_shape == (0, 2)):
+                    # a line is L_ij = eps_ijkl x^k y^l for two of its points (index types (0, 2)) or M^ij = eps^ijkl e_k f_l for two planes through it
+                    # ((2, 0)); points are tested against the first form, planes against the second: the other form is the epsilon dual
+                    eps_ = levi_civita(4, True).array.data
+                    d_ = {(i, j): sum((eps_[(i, j, k, l)] * d_[(k, l)] for k in range(4) for l in range(4) if not eps_[(i, j, k, l)].is_zero()), LP()) for i in range(4) for j in range(4)}
+                if all(x.is_zero() for x in d_.values()):
+                    problems.append("the result vanishes identically")
+                if not all((d_[(i, j)] + d_[(j, i)]).is_zero() for i in range(4) for j in range(4)):
+                    problems.append("the result is not antisymmetric")
+                for w_ in (u_, v_):
+                    if not all(sum((d_[(i, j)] * w_.array.data[(j,)] for j in range(4)), LP()).is_zero() for i in range(4)):
+                        problems.append(f"the contraction of the line with argument `{next(iter(w_.array.data[(0,)].t))[0][0][:-1]}` does not vanish: the argument is not incident with it")
+                swapped = call([v_, u_])
+                keys_ = sorted(d_)
+                d_ = res.array.data
+                if not all((swapped.array.data[k1] * d_[k2] - swapped.array.data[k2] * d_[k1]).is_zero() for i_, k1 in enumerate(keys_) for k2 in keys_[i_ + 1:]):
+                    problems.append("exchanging the arguments changes the result by more than a scalar")
+        except RaisedIn as ex:
+            span_run.add("E19.join", fn.short, label, VIOLATION, f"raises {ex.name} for arguments in general position", fn.loc)
+            continue
+        except (Unknown, NotPolynomial, RecursionError) as ex:
+            span_run.add("E19.join", fn.short, label, UNDECIDED, f"not read: {str(ex)[:110]}", fn.loc)
+            continue
+        span_run.add("E19.join", fn.short, label, VIOLATION if problems else PROVEN,
+                     "; ".join(dict.fromkeys(problems)) if problems else "an antisymmetric 2-tensor, not identically zero, whose contraction with either argument vanishes; independent of the order up to a scalar", fn.loc)
     # a line of 3-space (the join of two points, a contravariant 2-tensor) cut with a plane
     n_ob += 1
     label = "meet of the line join(p, q) with a plane of 3-space"
@@ -2964,6 +3003,8 @@ def rule_join_meet(run: Run, prog: Program, part: str = "span") -> int:
             span_run.add("E19.join", fn.short, label, VIOLATION, "; ".join(dict.fromkeys(problems)), fn.loc)
         else:
             span_run.add("E19.join", fn.short, label, PROVEN, "in both argument orders the point lies in the plane and on the line through p and q, and is not identically zero", fn.loc)
+    except RaisedIn as ex:
+        span_run.add("E19.join", fn.short, label, VIOLATION, f"raises {ex.name} for arguments in general position", fn.loc)
     except (Unknown, NotPolynomial, RecursionError) as ex:
         span_run.add("E19.join", fn.short, label, UNDECIDED, f"not read: {str(ex)[:110]}", fn.loc)
     line_kinds = {"SubspaceTensor", "Subspace", "Tensor", "ProjectiveTensor", "LineTensor", "Line"}
@@ -2982,6 +3023,8 @@ def rule_join_meet(run: Run, prog: Program, part: str = "span") -> int:
         ok = on_plane(call([line, r_]), [p_, q_, r_]) and on_plane(call([r_, line]), [p_, q_, r_])
         span_run.add("E19.join", fn.short, label, PROVEN if ok else VIOLATION,
                 "in both argument orders the result is a plane through p, q and r" if ok else "the result is not the plane through p, q and r", fn.loc)
+    except RaisedIn as ex:
+        span_run.add("E19.join", fn.short, label, VIOLATION, f"raises {ex.name} for arguments in general position", fn.loc)
     except (Unknown, NotPolynomial, RecursionError) as ex:
         span_run.add("E19.join", fn.short, label, UNDECIDED, f"not read: {str(ex)[:110]}", fn.loc)
     # two coplanar lines join(p, q), join(p, r) of 3-space (the branch after Blinn): for every pivot the argmax can select,
@@ -3014,6 +3057,8 @@ def rule_join_meet(run: Run, prog: Program, part: str = "span") -> int:
             span_run.add("E19.join", fn.short, label, PROVEN, f"{decided} cases (every pivot the argmax can select, meet and join): the meet is p, the join is the plane through p, q and r", fn.loc)
         else:
             span_run.add("E19.join", fn.short, label, UNDECIDED, "no pivot gave a result that could be read", fn.loc)
+    except RaisedIn as ex:
+        span_run.add("E19.join", fn.short, label, VIOLATION, f"raises {ex.name} for arguments in general position", fn.loc)
     except (Unknown, NotPolynomial, RecursionError) as ex:
         span_run.add("E19.join", fn.short, label, UNDECIDED, f"not read: {str(ex)[:110]}", fn.loc)
     # round trips in the plane
@@ -3026,6 +3071,9 @@ def rule_join_meet(run: Run, prog: Program, part: str = "span") -> int:
                 x.kinds = {"SubspaceTensor", "Subspace", "Tensor", "ProjectiveTensor", "LineTensor", "Line"} if point else set(point_kinds)
             back = call([first, second])
             ok = prop_to(back, a)
+        except RaisedIn as ex:
+            span_run.add("E19.join", fn.short, label, VIOLATION, f"raises {ex.name} for arguments in general position", fn.loc)
+            continue
         except (Unknown, NotPolynomial, RecursionError) as ex:
             span_run.add("E19.join", fn.short, label, UNDECIDED, f"not read: {str(ex)[:110]}", fn.loc)
             continue
